@@ -309,6 +309,14 @@ pub(super) fn execute_merge_create_from_rows<S: GraphSnapshot>(
             crate::ast::RelationshipDirection::RightToLeft => (dst_iid, src_iid),
         };
 
+        // The statement's snapshot still shows nodes that an earlier statement of the same
+        // transaction deleted; a relationship to them would dangle after commit.
+        if txn.is_node_deleted_in_txn(edge_src) || txn.is_node_deleted_in_txn(edge_dst) {
+            return Err(Error::Other(
+                "execution error: cannot create a relationship to a node deleted in this transaction"
+                    .to_string(),
+            ));
+        }
         txn.create_edge(edge_src, rel_type, edge_dst)?;
         created_count += 1;
         let edge_key = EdgeKey {
